@@ -164,6 +164,17 @@ func runSeq(cs *Case, or seqOracles) (w *World) {
 				twin.primary.CreateColumn(st.Col.Name, makeColumn(*st.Col))
 				twin.model.Cols = append(twin.model.Cols, *st.Col)
 			}
+		case "dropcol":
+			w.primary.DropColumn(st.Name)
+			dropColSpec(w.model, st.Name)
+			if rep != nil {
+				rep.DropColumn(st.Name)
+			}
+			if twin != nil {
+				twin.primary.DropColumn(st.Name)
+				dropColSpec(twin.model, st.Name)
+			}
+			w.stats.probe("column-dropped")
 		case "createindex":
 			if err := w.primary.CreateIndex(st.Index.Name, st.Index.Col, st.Index.Pred.rule()); err != nil {
 				w.fail(violation("schema", "CreateIndex(%q): %v", st.Index.Name, err))
@@ -238,6 +249,22 @@ func runSeq(cs *Case, or seqOracles) (w *World) {
 	w.stats.EndState = w.model.stateHash()
 	w.stats.Nontrivial = w.stats.Commits > 0 && len(w.model.Rows) > 0
 	return w
+}
+
+// dropColSpec removes a column and everything stored in it from the model.
+func dropColSpec(m *Model, name string) {
+	for k, c := range m.Cols {
+		if c.Name == name {
+			m.Cols = append(m.Cols[:k:k], m.Cols[k+1:]...)
+			break
+		}
+	}
+	for _, r := range m.Rows {
+		delete(r, name)
+	}
+	for _, t := range m.Touched {
+		delete(t, name)
+	}
 }
 
 func dropIndexSpec(m *Model, name string) {
